@@ -180,6 +180,15 @@ let run_val (id : string) (t : string list) =
   | ["osb"; n; s] -> res2s string_of_z (Binomial.optimal_steps_binomial (z n) (z s))
   | ["osm"; n; s] -> res2s string_of_z (Binomial.optimal_steps_mixed (z n) (z s))
   | ["memo"; n; s] -> res2s plan2s (Mixed.memo_warm (z n) (z s) (z n) (z s))
+  | ["memosweep"; lo; hi; s] ->   (* mixed_step_memoization(n, s) for every n in lo..hi, summarised; Mixed.memo with the fuel the closed-form column needs *)
+      let kz = function Mixed.KNone -> 0 | Mixed.KForward -> 1 | Mixed.KFR -> 2 | Mixed.KAdj -> 3 | Mixed.KIcs -> 4 in
+      let fuel = nat_of_int 6 in
+      let rec go n cnt tot kinds =
+        if n > int_of_string hi then Printf.sprintf "ok=%d sum=%s kinds=%d err=none" cnt (string_of_z tot) kinds
+        else match Mixed.memo fuel (z_of_small n) (z s) with
+          | Err e -> Printf.sprintf "ok=%d sum=%s kinds=%d err=%d:%s" cnt (string_of_z tot) kinds n (exn2s e)
+          | Ok ((k, a), c) -> go (n + 1) (cnt + 1) (BinInt.Z.add tot (BinInt.Z.add a c)) (kinds + kz k) in
+      go (int_of_string lo) 0 Z0 0
   | ["tabmemo"; n; s] ->   (* entry (n, s) of the tabulated planner next to the memoised one: equal by theorem C16 (MixPaths / MixDP), so the
                              model prints the memoised entry for both *)
       res2s (fun p -> plan2s p ^ " " ^ plan2s p) (Mixed.memo_warm (z n) (z s) (z n) (z s))
